@@ -87,6 +87,8 @@ class AsyncInternalEnforcer(CoreEnforcer):
 
         await self.adapter.load_filtered_policy(self.model, filter)
 
+        self.model.sort_policies_by_subject_hierarchy()
+
         self.model.sort_policies_by_priority()
 
         self.init_rm_map()
@@ -100,6 +102,11 @@ class AsyncInternalEnforcer(CoreEnforcer):
             raise ValueError("filtered policies are not supported by this adapter")
 
         await self.adapter.load_filtered_policy(self.model, filter)
+
+        self.model.sort_policies_by_subject_hierarchy()
+
+        self.model.sort_policies_by_priority()
+
         self.model.print_policy()
         if self.auto_build_role_links:
             self.build_role_links()
